@@ -19,14 +19,15 @@ Recorded ==
 Apply(s, e) ==
     CASE e.ev = "reset"   -> P0
       [] e.ev = "cfg"     -> PCfg(s, e.keep)
-      [] e.ev = "call"    -> PCallOp(s, e.id, e.op, e.cb, e.ref, e.k)
+      [] e.ev = "call"    -> PCallOp(Dirty(s), e.id, e.op, e.cb, e.ref, e.k)
+      [] e.ev = "rootcancel" -> PRootCancel(s)
       [] e.ev = "ret"     -> PRet(s, e.id, e.res, e.val, e.err)
       [] e.ev = "panic"   -> PPanic(s, e.id)
       [] e.ev = "enter"   -> PEnter(s, e.n)
       [] e.ev = "leave"   -> PLeave(s, e.n, e.out, e.rel)
       [] e.ev = "cb"      -> PCbk(s, e.ref, e.res, e.val, e.err)
       [] e.ev = "rel"     -> PRel(s, e.n, e.tgt)
-      [] e.ev = "relcall" -> PRelCall(s, e.n, e.inside)
+      [] e.ev = "relcall" -> PRelCall(Dirty(s), e.n, e.inside)
       [] e.ev = "relcb"   -> PRelCb(s, e.id)
       [] e.ev = "cbenter" -> PCbEnter(s, e.id, e.k, e.val)
       [] e.ev = "cbleave" -> PCbLeave(s, e.id, e.k, e.out)
